@@ -15,5 +15,7 @@ func controlsC06() []Control {
 		{Name: "rotate helper drops the head", Expect: "R2", Mutate: replaceIn("rotateStringArray", "return append(source[startIndex:], source[:startIndex]...)", "return source[startIndex:]", 0)},
 		{Name: "next-BB order computed before results are credited", Expect: "R5", Mutate: replaceIn("(*tableEngine).settleGame", "\t// 計算攤牌勝率用\n", "\tte.table.State.NextBBOrderPlayerIDs = te.refreshNextBBOrderPlayerIDs(te.sm.CurrentBBSeatID(), te.table.Meta.TableMaxSeatCount, te.table.State.PlayerStates, te.table.State.SeatMap)\n", 0)},
 		{Name: "dead-seat label skip only for occupied seats", Expect: "R7", Mutate: replaceIn("(*tableEngine).updatePlayerPositions", "if seatPlayer, exist := te.sm.Seats()[seatID]; exist {\n\t\t\tif seatPlayer != nil && seatPlayer.Active() {", "if seatPlayer, exist := te.sm.Seats()[seatID]; exist && seatPlayer != nil {\n\t\t\tif seatPlayer.Active() {", 0)},
+		{Name: "labels handed out starting at the dealer seat", Expect: "R8", Mutate: replaceIn("(*tableEngine).updatePlayerPositions", "for i := bbSeatID; i < maxSeat+bbSeatID; i++ {", "for i := dealerSeatID; i < maxSeat+dealerSeatID; i++ {", 0)},
+		{Name: "labels given to ineligible seated players too", Expect: "R8", Mutate: replaceIn("(*tableEngine).updatePlayerPositions", "if seatPlayer != nil && seatPlayer.Active() {", "if seatPlayer != nil && seatPlayer.IsIn {", 0)},
 	}
 }
